@@ -37,7 +37,8 @@ ASSUMPTIONS = [
 MINIMUMS = {
     'quick': {'evaluations': 2500, 'kind:deepcopy': 300, 'kind:pickle': 300, 'kind:copy': 300,
               'kind:copy_with': 300, 'kind:cast': 300, 'kind:deepcopy_with': 300,
-              'tagged_positional_cases': 100, 'edits_changing_tags': 300, 'edits_applied': 4000},
+              'tagged_positional_cases': 100, 'edits_changing_tags': 300, 'edits_applied': 4000,
+              'tagged_unset_argument_cases': 100},
     'thorough': {'evaluations': 80000, 'tagged_positional_cases': 3000, 'edits_changing_tags': 10000},
 }
 
@@ -177,11 +178,28 @@ def run_case(rng, acc):
                   tagged_values=True, explicit_tags=0.5, dict_keys=['k', 'j', 3, (1, 'a'), None])
   g = gen.DagGen(rng, opts)
   root = g.dag(root_btype=rng.choice(['Config', 'Partial']))
+  # tags on arguments WITHOUT a value too: unset positional-only / named parameters, free
+  # *args slots, **kwargs names
+  import inspect
+  for n in gen.walk(root):
+    if isinstance(n, gen.B) and n.btype != 'TaggedValue' and rng.random() < 0.4:
+      ps = list(inspect.signature(n.fn).parameters.values())
+      cands = [i if p.kind == p.POSITIONAL_ONLY else p.name for i, p in enumerate(ps)
+               if p.kind in (p.POSITIONAL_ONLY, p.POSITIONAL_OR_KEYWORD, p.KEYWORD_ONLY)]
+      npf = sum(p.kind in (p.POSITIONAL_ONLY, p.POSITIONAL_OR_KEYWORD) for p in ps)
+      if any(p.kind == p.VAR_POSITIONAL for p in ps):
+        cands += [npf + len(n.pos[npf:]), npf + len(n.pos[npf:]) + 1]
+      if any(p.kind == p.VAR_KEYWORD for p in ps):
+        cands += ['extra_unset']
+      if cands:
+        n.tags.setdefault(rng.choice(cands), set()).add(rng.choice(vtags.ALL))
   sketch = gen.sketch(root)
   a = gen.to_fiddle(root)
   nb = sum(isinstance(n, gen.B) for n in gen.walk(root))
   if any(isinstance(k, int) and v for k, v in a.__argument_tags__.items()):
     acc.obs('tagged_positional_cases')
+  if any(v and k not in a.__arguments__ for k, v in a.__argument_tags__.items()):
+    acc.obs('tagged_unset_argument_cases')
   cnt = itertools.count(1)
   for kind in rng.sample(KINDS, 3):
     acc.obs('kind:' + kind)
